@@ -47,56 +47,49 @@ Fixpoint aremove {A} (k : N) (m : list (N * A)) : list (N * A) :=
   | (k', v') :: t => if k =? k' then t else (k', v') :: aremove k t
   end.
 
-(* ---- reporter cells ---- *)
-Record cell := { c_links : N; c_events : N; c_commands : N; c_alive : bool }.
+(* ---- reporter cells ----
+   Every UplinkReporter is an Arc around three counters.  A lane's reporter is owned by that lane's
+   entry (the reader and the read task only hold further handles to the same cell), so the cell is
+   modelled inside the entry; the aggregate reporter's cell belongs to the registry.  [rep] is the
+   index under which the harness keeps its reader for the cell (0 = aggregate). *)
+Record cell := { c_links : N; c_events : N; c_commands : N }.
 
 Definition U64MAX : N := 18446744073709551615.
 Definition sat_add (a b : N) : N := N.min (a + b) U64MAX.
 
-Definition cell0 : cell := {| c_links := 0; c_events := 0; c_commands := 0; c_alive := true |}.
-
-Fixpoint upd_nth {A} (i : nat) (f : A -> A) (l : list A) : list A :=
-  match l, i with
-  | [], _ => []
-  | x :: t, O => f x :: t
-  | x :: t, S j => x :: upd_nth j f t
-  end.
+Definition cell0 : cell := {| c_links := 0; c_events := 0; c_commands := 0 |}.
 
 Definition set_uplinks (n : N) (c : cell) : cell :=
-  {| c_links := n; c_events := c_events c; c_commands := c_commands c; c_alive := c_alive c |}.
+  {| c_links := n; c_events := c_events c; c_commands := c_commands c |}.
 Definition add_events (n : N) (c : cell) : cell :=
-  {| c_links := c_links c; c_events := sat_add (c_events c) n; c_commands := c_commands c;
-     c_alive := c_alive c |}.
+  {| c_links := c_links c; c_events := sat_add (c_events c) n; c_commands := c_commands c |}.
 Definition add_commands (n : N) (c : cell) : cell :=
-  {| c_links := c_links c; c_events := c_events c; c_commands := sat_add (c_commands c) n;
-     c_alive := c_alive c |}.
+  {| c_links := c_links c; c_events := c_events c; c_commands := sat_add (c_commands c) n |}.
 Definition take_counts (c : cell) : cell :=
-  {| c_links := c_links c; c_events := 0; c_commands := 0; c_alive := c_alive c |}.
-Definition kill (c : cell) : cell :=
-  {| c_links := c_links c; c_events := c_events c; c_commands := c_commands c; c_alive := false |}.
+  {| c_links := c_links c; c_events := 0; c_commands := 0 |}.
 
-Record lanelinks := { ll_remotes : list N; ll_reporter : option nat }.
+(* LaneLinks: the set of remotes and the optional reporter (index, cell) *)
+Record lanelinks := { ll_remotes : list N; ll_reporter : option (nat * cell) }.
 Definition ll_default : lanelinks := {| ll_remotes := []; ll_reporter := None |}.
+
+Definition ll_report (f : cell -> cell) (ll : lanelinks) : option (nat * cell) :=
+  match ll_reporter ll with Some (k, c) => Some (k, f c) | None => None end.
 
 Record links := {
   forward : list (N * lanelinks);
   backwards : list (N * list N);
   total : N;
-  agg : option nat;
-  cells : list cell
+  agg : option cell;               (* aggregate reporter (reader index 0) *)
+  next_rep : nat                   (* number of reporters created so far *)
 }.
 
-(* Links::new(aggregate_reporter): cell 0 is the aggregate reporter when present *)
 Definition init (with_agg : bool) : links :=
   {| forward := []; backwards := []; total := 0;
-     agg := if with_agg then Some O else None;
-     cells := if with_agg then [cell0] else [] |}.
+     agg := if with_agg then Some cell0 else None;
+     next_rep := if with_agg then 1%nat else 0%nat |}.
 
-Definition with_cells (l : links) (cs : list cell) : links :=
-  {| forward := forward l; backwards := backwards l; total := total l; agg := agg l; cells := cs |}.
-
-Definition report (r : option nat) (f : cell -> cell) (cs : list cell) : list cell :=
-  match r with Some k => upd_nth k f cs | None => cs end.
+Definition agg_report (f : cell -> cell) (a : option cell) : option cell :=
+  match a with Some c => Some (f c) | None => None end.
 
 Definition fwd_get (l : links) (lane : N) : lanelinks :=
   match alookup lane (forward l) with Some x => x | None => ll_default end.
@@ -146,38 +139,38 @@ Fixpoint remove_lane_loop (b : list (N * list N)) (lane : N) (rs : list N)
       (b2, (r, prune) :: outs)
   end.
 
+(* LaneLinks::remove applied to one entry: (new entry, new total) *)
+Definition ll_remove (ll : lanelinks) (remote : N) (tot : N) : lanelinks * N :=
+  if set_mem remote (ll_remotes ll) then
+    let rs := set_remove remote (ll_remotes ll) in
+    ({| ll_remotes := rs; ll_reporter := ll_report (set_uplinks (len rs)) ll |}, N.pred tot)
+  else (ll, tot).
+
 (* one pass of remove_remote over the lanes of the removed remote *)
-Fixpoint remove_remote_loop (f : list (N * lanelinks)) (cs : list cell) (tot : N)
-         (remote : N) (lanes : list N) : list (N * lanelinks) * list cell * N :=
+Fixpoint remove_remote_loop (f : list (N * lanelinks)) (tot : N)
+         (remote : N) (lanes : list N) : list (N * lanelinks) * N :=
   match lanes with
-  | [] => (f, cs, tot)
+  | [] => (f, tot)
   | lane :: t =>
       match alookup lane f with
       | Some ll =>
-          if set_mem remote (ll_remotes ll) then
-            let rs := set_remove remote (ll_remotes ll) in
-            let cs1 := report (ll_reporter ll) (set_uplinks (len rs)) cs in
-            let tot1 := N.pred tot in
-            let ll' := {| ll_remotes := rs; ll_reporter := ll_reporter ll |} in
-            (* the entry of an emptied lane is dropped only if it carries no reporter *)
-            let f1 := match rs, ll_reporter ll with
-                      | [], None => aremove lane f
-                      | _, _ => aset lane ll' f
-                      end in
-            remove_remote_loop f1 cs1 tot1 remote t
-          else remove_remote_loop f cs tot remote t
-      | None => remove_remote_loop f cs tot remote t
+          let (ll', tot1) := ll_remove ll remote tot in
+          (* the entry of an emptied lane is dropped only if it carries no reporter *)
+          let f1 := match ll_remotes ll', ll_reporter ll' with
+                    | [], None => aremove lane f
+                    | _, _ => aset lane ll' f
+                    end in
+          remove_remote_loop f1 tot1 remote t
+      | None => remove_remote_loop f tot remote t
       end
   end.
 
-Fixpoint take_all (f : list (N * lanelinks)) (cs : list cell)
-  : list (N * lanelinks) * list cell * list (N * N) :=
+Fixpoint take_all (f : list (N * lanelinks)) : list (N * lanelinks) * list (N * N) :=
   match f with
-  | [] => ([], cs, [])
+  | [] => ([], [])
   | (lane, ll) :: t =>
-      let cs1 := report (ll_reporter ll) (set_uplinks 0) cs in
-      let '(t', cs2, ps) := take_all t cs1 in
-      ((lane, {| ll_remotes := []; ll_reporter := ll_reporter ll |}) :: t', cs2,
+      let (t', ps) := take_all t in
+      ((lane, {| ll_remotes := []; ll_reporter := ll_report (set_uplinks 0) ll |}) :: t',
        map (fun r => (lane, r)) (ll_remotes ll) ++ ps)
   end.
 
@@ -190,92 +183,116 @@ Fixpoint insert_pair (p : N * N) (l : list (N * N)) : list (N * N) :=
   end.
 Definition sort_pairs (l : list (N * N)) : list (N * N) := fold_right insert_pair [] l.
 
+(* apply f to the cell of reporter #rep wherever it lives *)
+Fixpoint fwd_upd_rep (rep : nat) (g : cell -> cell) (f : list (N * lanelinks)) : list (N * lanelinks) :=
+  match f with
+  | [] => []
+  | (lane, ll) :: t =>
+      match ll_reporter ll with
+      | Some (k, c) =>
+          if Nat.eqb k rep then (lane, {| ll_remotes := ll_remotes ll; ll_reporter := Some (k, g c) |}) :: t
+          else (lane, ll) :: fwd_upd_rep rep g t
+      | None => (lane, ll) :: fwd_upd_rep rep g t
+      end
+  end.
+
+Fixpoint fwd_find_rep (rep : nat) (f : list (N * lanelinks)) : option cell :=
+  match f with
+  | [] => None
+  | (lane, ll) :: t =>
+      match ll_reporter ll with
+      | Some (k, c) => if Nat.eqb k rep then Some c else fwd_find_rep rep t
+      | None => fwd_find_rep rep t
+      end
+  end.
+
+Definition with_fwd_agg (l : links) f a : links :=
+  {| forward := f; backwards := backwards l; total := total l; agg := a; next_rep := next_rep l |}.
+
 Definition step (l : links) (o : op) : links * out :=
   match o with
   | RegisterLane lane with_reporter =>
       if with_reporter then
-        let k := length (cells l) in
+        let k := next_rep l in
         let ll := fwd_get l lane in
-        (* replacing a reporter drops the old one *)
-        let cs0 := report (ll_reporter ll) kill (cells l) in
-        ({| forward := aset lane {| ll_remotes := ll_remotes ll; ll_reporter := Some k |} (forward l);
-            backwards := backwards l; total := total l; agg := agg l;
-            cells := cs0 ++ [cell0] |}, OReg (Some k))
+        ({| forward := aset lane {| ll_remotes := ll_remotes ll; ll_reporter := Some (k, cell0) |} (forward l);
+            backwards := backwards l; total := total l; agg := agg l; next_rep := S k |},
+         OReg (Some k))
       else (l, OReg None)
   | Insert lane remote =>
       let ll := fwd_get l lane in
       let fresh := negb (set_mem remote (ll_remotes ll)) in
       let rs := set_insert remote (ll_remotes ll) in
-      let cs1 := if fresh then report (ll_reporter ll) (set_uplinks (len rs)) (cells l) else cells l in
+      let rep := if fresh then ll_report (set_uplinks (len rs)) ll else ll_reporter ll in
       let tot := if fresh then total l + 1 else total l in
-      let cs2 := report (agg l) (set_uplinks tot) cs1 in
       let ls := match alookup remote (backwards l) with Some x => x | None => [] end in
-      ({| forward := aset lane {| ll_remotes := rs; ll_reporter := ll_reporter ll |} (forward l);
+      ({| forward := aset lane {| ll_remotes := rs; ll_reporter := rep |} (forward l);
           backwards := aset remote (set_insert lane ls) (backwards l);
-          total := tot; agg := agg l; cells := cs2 |}, OUnit)
+          total := tot; agg := agg_report (set_uplinks tot) (agg l); next_rep := next_rep l |}, OUnit)
   | Remove lane remote =>
-      let '(f1, cs1, tot) :=
+      let '(f1, a1, tot) :=
         match alookup lane (forward l) with
         | Some ll =>
-            let present := set_mem remote (ll_remotes ll) in
-            let rs := set_remove remote (ll_remotes ll) in
-            let cs1 := if present then report (ll_reporter ll) (set_uplinks (len rs)) (cells l)
-                       else cells l in
-            let tot := if present then N.pred (total l) else total l in
-            (aset lane {| ll_remotes := rs; ll_reporter := ll_reporter ll |} (forward l),
-             report (agg l) (set_uplinks tot) cs1, tot)
-        | None => (forward l, cells l, total l)
+            let (ll', tot) := ll_remove ll remote (total l) in
+            (aset lane ll' (forward l), agg_report (set_uplinks tot) (agg l), tot)
+        | None => (forward l, agg l, total l)
         end in
       let (b1, prune) := bwd_drop (backwards l) remote lane in
-      ({| forward := f1; backwards := b1; total := tot; agg := agg l; cells := cs1 |},
+      ({| forward := f1; backwards := b1; total := tot; agg := a1; next_rep := next_rep l |},
        OTrigger remote prune)
   | RemoveRemote remote =>
       let lanes := match alookup remote (backwards l) with Some x => x | None => [] end in
-      let '(f1, cs1, tot) := remove_remote_loop (forward l) (cells l) (total l) remote lanes in
-      ({| forward := f1; backwards := aremove remote (backwards l); total := tot; agg := agg l;
-          cells := report (agg l) (set_uplinks tot) cs1 |}, OUnit)
+      let (f1, tot) := remove_remote_loop (forward l) (total l) remote lanes in
+      ({| forward := f1; backwards := aremove remote (backwards l); total := tot;
+          agg := agg_report (set_uplinks tot) (agg l); next_rep := next_rep l |}, OUnit)
   | RemoveLane lane =>
       match alookup lane (forward l) with
       | Some ll =>
           let tot := total l - len (ll_remotes ll) in
-          let cs1 := report (ll_reporter ll) (set_uplinks 0) (cells l) in
-          let cs2 := report (agg l) (set_uplinks tot) cs1 in
-          (* the LaneLinks value (and its reporter) is dropped *)
-          let cs3 := report (ll_reporter ll) kill cs2 in
+          (* the LaneLinks value (and its reporter) is dropped with the entry *)
           let (b1, outs) := remove_lane_loop (backwards l) lane (ll_remotes ll) in
-          ({| forward := aremove lane (forward l); backwards := b1; total := tot; agg := agg l;
-              cells := cs3 |}, OTriggers outs)
+          ({| forward := aremove lane (forward l); backwards := b1; total := tot;
+              agg := agg_report (set_uplinks tot) (agg l); next_rep := next_rep l |}, OTriggers outs)
       | None => (l, OTriggers [])
       end
   | RemoveAll =>
-      let cs0 := report (agg l) (set_uplinks 0) (cells l) in
-      let '(f1, cs1, ps) := take_all (forward l) cs0 in
-      ({| forward := f1; backwards := []; total := total l - len (map fst ps); agg := agg l;
-          cells := cs1 |}, OPairs (sort_pairs ps))
+      let (f1, ps) := take_all (forward l) in
+      ({| forward := f1; backwards := []; total := total l - len (map fst ps);
+          agg := agg_report (set_uplinks 0) (agg l); next_rep := next_rep l |}, OPairs (sort_pairs ps))
   | CountSingle lane =>
       match agg l, alookup lane (forward l) with
       | Some a, Some ll =>
-          (with_cells l (upd_nth a (add_events 1) (report (ll_reporter ll) (add_events 1) (cells l))),
-           OUnit)
+          (with_fwd_agg l
+             (aset lane {| ll_remotes := ll_remotes ll; ll_reporter := ll_report (add_events 1) ll |} (forward l))
+             (Some (add_events 1 a)), OUnit)
       | _, _ => (l, OUnit)
       end
   | CountBroadcast lane =>
       match agg l, alookup lane (forward l) with
       | Some a, Some ll =>
           let n := len (ll_remotes ll) in
-          (with_cells l (upd_nth a (add_events n) (report (ll_reporter ll) (add_events n) (cells l))),
-           OUnit)
+          (with_fwd_agg l
+             (aset lane {| ll_remotes := ll_remotes ll; ll_reporter := ll_report (add_events n) ll |} (forward l))
+             (Some (add_events n a)), OUnit)
       | _, _ => (l, OUnit)
       end
-  | CountCommands rep n => (with_cells l (upd_nth rep (add_commands n) (cells l)), OUnit)
+  | CountCommands rep n =>
+      match rep, agg l with
+      | O, Some a => (with_fwd_agg l (forward l) (Some (add_commands n a)), OUnit)
+      | _, _ => (with_fwd_agg l (fwd_upd_rep rep (add_commands n) (forward l)) (agg l), OUnit)
+      end
   | Snapshot rep =>
-      match nth_error (cells l) rep with
-      | Some c =>
-          if c_alive c then
-            (with_cells l (upd_nth rep take_counts (cells l)),
-             OSnap (Some (c_links c, c_events c, c_commands c)))
-          else (l, OSnap None)
-      | None => (l, OSnap None)
+      match rep, agg l with
+      | O, Some a =>
+          (with_fwd_agg l (forward l) (Some (take_counts a)),
+           OSnap (Some (c_links a, c_events a, c_commands a)))
+      | _, _ =>
+          match fwd_find_rep rep (forward l) with
+          | Some c =>
+              (with_fwd_agg l (fwd_upd_rep rep take_counts (forward l)) (agg l),
+               OSnap (Some (c_links c, c_events c, c_commands c)))
+          | None => (l, OSnap None)
+          end
       end
   | LinkedFrom lane =>
       (l, OSet match alookup lane (forward l) with
@@ -422,18 +439,24 @@ Definition oref_step (r : oref) (o : op) (x : out) : option oref :=
                            (o_owed_events r) (o_owed_cmds r))
       else None
   | CountSingle lane, OUnit =>
-      (* one event sent to one link of this lane *)
-      if o_agg r && set_mem lane (o_known r) then
-        Some (oref_with r (o_rel r) (o_lane_rep r) (o_next_rep r) (o_known r)
-                        (bump (Some O) 1 (bump (alookup lane (o_lane_rep r)) 1 (o_owed_events r)))
-                        (o_owed_cmds r))
+      (* one event sent to one link of this lane: counted for the lane and for the agent *)
+      if o_agg r then
+        match alookup lane (o_lane_rep r) with
+        | Some k =>
+            Some (oref_with r (o_rel r) (o_lane_rep r) (o_next_rep r) (o_known r)
+                            (bump (Some O) 1 (bump (Some k) 1 (o_owed_events r))) (o_owed_cmds r))
+        | None => None      (* the harness only counts on live, registered lanes *)
+        end
       else Some r
   | CountBroadcast lane, OUnit =>
-      if o_agg r && set_mem lane (o_known r) then
-        let n := count_lane lane (o_rel r) in
-        Some (oref_with r (o_rel r) (o_lane_rep r) (o_next_rep r) (o_known r)
-                        (bump (Some O) n (bump (alookup lane (o_lane_rep r)) n (o_owed_events r)))
-                        (o_owed_cmds r))
+      if o_agg r then
+        match alookup lane (o_lane_rep r) with
+        | Some k =>
+            let n := count_lane lane (o_rel r) in
+            Some (oref_with r (o_rel r) (o_lane_rep r) (o_next_rep r) (o_known r)
+                            (bump (Some O) n (bump (Some k) n (o_owed_events r))) (o_owed_cmds r))
+        | None => None
+        end
       else Some r
   | CountCommands rep n, OUnit =>
       Some (oref_with r (o_rel r) (o_lane_rep r) (o_next_rep r) (o_known r) (o_owed_events r)
